@@ -370,6 +370,7 @@ pub fn def() -> PropDef {
                 cases_quick: 30_000,
                 cases_thorough: 120_000,
                 max_shrink_iters: 2000,
+                limit_factor: 1,
                 strategy: hll_case,
                 check: hll_sizes,
             }),
@@ -379,6 +380,7 @@ pub fn def() -> PropDef {
                 cases_quick: 6_000,
                 cases_thorough: 30_000,
                 max_shrink_iters: 500,
+                limit_factor: 1,
                 strategy: theta_case,
                 check: theta_sizes,
             }),
@@ -388,6 +390,7 @@ pub fn def() -> PropDef {
                 cases_quick: 6_000,
                 cases_thorough: 30_000,
                 max_shrink_iters: 300,
+                limit_factor: 1,
                 strategy: misc_case,
                 check: misc_sizes,
             }),
